@@ -75,6 +75,8 @@ struct uftrace_task_reader {
 		int in_count;
 		int out_count;
 		int depth;
+		/* number of open calls the size filter dropped from the look-ahead list */
+		int size_skip;
 		struct uftrace_task_filter_stack *stack;
 	} filter;
 	struct uftrace_fstack {
